@@ -380,6 +380,43 @@ EmitHist ==
     PrintT(<<"REPLAY", ToJson([d |-> D, init |-> InitCap, max |-> MaxCap, steps |-> hist])>>)
 
 ---------------------------------------------------------------------------
+(* Transition tables: the four step functions evaluated on EVERY buffer    *)
+(* state that satisfies the buffer invariants (a superset of the reachable *)
+(* ones), for every argument.  TLC enumerates the states as initial states *)
+(* and prints one table per state; the replayer puts a real Channel in     *)
+(* that state through the public fields and executes every row.            *)
+
+RECURSIVE CapsFrom(_)
+CapsFrom(c) == IF c >= MaxCap THEN {MaxCap} ELSE {c} \cup CapsFrom(GrowSize(c))
+AllBufs == UNION {UNION {{Buf(p, e, c) : e \in p..c} : p \in 0..(c \div 2)} : c \in CapsFrom(InitCap)}
+TableSock == MaxCap + D
+
+WrRow(L) == LET r == WriteStep(back, L) IN <<L, B(r.ok), Data(r.buf), Space(r.buf), r.buf.cap>>
+WbRow(k) == LET r == WritableStep(back, IF k = 0 THEN <<>> ELSE <<k>>)
+            IN <<k, Data(r.buf), Space(r.buf), r.buf.cap, B(~r.drained), B(r.drained), r.n>>
+RdRow(n) == LET r == ReadLoop(back, n, 0)
+            IN <<n, Data(r.buf), Space(r.buf), r.buf.cap, r.sock, B(r.stop # "full"), B(r.stop # "wouldblock"), r.n>>
+RmRow(f) == LET r == ReadMsgAt(back, <<f>>, 0)
+            IN <<f.len, f.decl, f.kind, r.res, Data(r.buf), Space(r.buf), r.buf.cap, B(r.setI), B(r.pop)>>
+
+TableInit ==
+  /\ back \in AllBufs /\ txI = FALSE /\ txR = FALSE
+  /\ front = Buf(0, 0, InitCap) /\ rxI = TRUE /\ rxR = FALSE
+  /\ nWire = 0 /\ nSock = 0 /\ frames = <<>> /\ skip = 0
+  /\ nW = 0 /\ nI = 0 /\ nextId = 1
+  /\ obs = [sent |-> <<>>, delivered |-> <<>>, errs |-> {}]
+  /\ hist = <<>>
+TableSpec == TableInit /\ [][FALSE]_vars
+
+EmitTables ==
+  PrintT(<<"REPLAY", ToJson([d |-> D, init |-> InitCap, max |-> MaxCap,
+                             buf |-> <<back.pos, back.end, back.cap>>,
+                             write    |-> {WrRow(L) : L \in WriteSizes},
+                             writable |-> {WbRow(k) : k \in 0..Data(back)},
+                             readable |-> {RdRow(n) : n \in 0..TableSock},
+                             readmsg  |-> {RmRow(f) : f \in InjectFrames}])>>)
+
+---------------------------------------------------------------------------
 (* Properties (C11) *)
 
 BufOK(b) == b.pos \in Nat /\ b.end \in Nat /\ b.cap \in Nat
